@@ -256,14 +256,14 @@ SigMutAt(j) ==
       pos  == IF q < 132 THEN q + 1 ELSE q - 131
   IN  KItem("sig.parse", "mutate_every_position",
             [text |-> Utf8ToStr(SubSeq(text, 1, pos - 1) \o MutChars[c] \o SubSeq(text, pos + 1, Len(text)))])
-\* bulk sweeps: 2^16 signatures per item over counter-generated digests, compared chunk-wise (4096) through hashes
+\* bulk sweeps: 2^15 signatures per item over counter-generated digests, compared chunk-wise (4096) through hashes
 \* with the specification's signatures (Ecdsa!BulkSignHash): 2^18 signatures per quick run, 2^25 per thorough run
 \* (VERIF_BULK overrides the number of items)
-NBulk == IF "VERIF_BULK" \in DOMAIN IOEnv THEN atoi(IOEnv.VERIF_BULK) ELSE IF Thorough THEN 512 ELSE 4
+NBulk == IF "VERIF_BULK" \in DOMAIN IOEnv THEN atoi(IOEnv.VERIF_BULK) ELSE IF Thorough THEN 1024 ELSE 8
 BulkAt(j) ==
   KItem("key.sign.bulk", "bulk",
         [secret |-> BytesToHex(IF j % 2 = 0 THEN SignKeys[4] ELSE Prng(K("bk", <<j>>), 31) \o <<1>>),
-         seed |-> BytesToHex(K("bulk", <<j>>)), from |-> 65536 * j, count |-> 65536, chunk |-> 4096])
+         seed |-> BytesToHex(K("bulk", <<j>>)), from |-> 32768 * j, count |-> 32768, chunk |-> 4096])
 
 \* every character U+0001..U+00FF in the place of the first digit of r and of the last digit of v
 NSigEveryChar == 2 * 255
